@@ -64,6 +64,11 @@ type Opts struct {
 	// Observe, when set, is called for every reached instruction with a lookup of what the path environment knows
 	// about a phi on the way it was reached (a constant, or a value known to be non-nil).
 	Observe func(in ssa.Instruction, phiVal func(*ssa.Phi) (ssa.Value, bool))
+	// ObserveFacts: like Observe, for the nil / non-nil facts the taken branches established about non-phi values.
+	ObserveFacts func(in ssa.Instruction, fact func(ssa.Value) (nonNil bool, known bool))
+	// ErrNilImpliesValue applies Go's (value, error) convention while learning from branches: on the side where the
+	// error result of a call is nil, its pointer-typed first result is taken to be non-nil.
+	ErrNilImpliesValue bool
 }
 
 // Result of a reachability query.
@@ -442,6 +447,10 @@ func (e phiEnv) with(b, from *ssa.BasicBlock) phiEnv {
 				nv[ph] = nilOf(in)
 			} else if e.nonNil(in) {
 				nv[ph] = in
+			} else if ex, isEx := in.(*ssa.Extract); isEx && isCallTuple(ex) {
+				// a result of a (value, error) call carried by a phi: remember which one, so that a later nil
+				// test of the phi says something about that call (merged error checks)
+				nv[ph] = in
 			} else {
 				delete(nv, ph)
 			}
@@ -480,6 +489,14 @@ func (e phiEnv) learn(cond ssa.Value, taken bool) phiEnv {
 		x, y := bo.X, bo.Y
 		if IsNilConst(x) {
 			x, y = y, x
+		}
+		if xp, isPhi := x.(*ssa.Phi); isPhi && IsNilConst(y) {
+			// a phi known to carry a call result on this path: the test is about that result
+			if cur, ok := e.vals[xp]; ok {
+				if ex, isEx := cur.(*ssa.Extract); isEx && isCallTuple(ex) {
+					x = ex
+				}
+			}
 		}
 		if _, isPhi := x.(*ssa.Phi); IsNilConst(y) && !isPhi && !IsNilConst(x) {
 			nonNil := (bo.Op == token.NEQ) == taken
@@ -595,6 +612,9 @@ func (e phiEnv) evalCond(cond ssa.Value) (bool, bool) {
 			case e.nonNil(v):
 				return op == token.NEQ, true
 			}
+			if fact, known := e.nn[v]; known && !fact {
+				return op == token.EQL, true
+			}
 			return false, false
 		}
 		rc, okr := r.(*ssa.Const)
@@ -681,6 +701,16 @@ func Reach(starts []Pt, o Opts) Result {
 				env := it.env
 				o.Observe(in, func(ph *ssa.Phi) (ssa.Value, bool) { v, ok := env.vals[ph]; return v, ok })
 			}
+			if o.ObserveFacts != nil {
+				env := it.env
+				o.ObserveFacts(in, func(v ssa.Value) (bool, bool) {
+					if KnownNonNil(v) {
+						return true, true
+					}
+					f, ok := env.nn[v]
+					return f, ok
+				})
+			}
 			if ret, isRet := in.(*ssa.Return); isRet {
 				tuple := make([]ssa.Value, len(ret.Results))
 				for ri := range ret.Results {
@@ -753,6 +783,9 @@ func Reach(starts []Pt, o Opts) Result {
 			env := it.env
 			if ifi != nil {
 				env = env.learn(ifi.Cond, si == 0)
+				if o.ErrNilImpliesValue {
+					env = env.valueOfNilErr()
+				}
 			}
 			push(Pt{B: s, I: 0}, b, env.with(s, b))
 		}
@@ -1005,4 +1038,50 @@ func returnsPhi(b *ssa.BasicBlock) bool {
 		}
 	}
 	return false
+}
+
+// valueOfNilErr: for every call whose error result is known to be nil on this path, its pointer-typed first result
+// is known to be non-nil (the (value, error) convention).
+func (e phiEnv) valueOfNilErr() phiEnv {
+	var add []ssa.Value
+	for v, nonNil := range e.nn {
+		ex, ok := v.(*ssa.Extract)
+		if nonNil || !ok || ex.Index == 0 {
+			continue
+		}
+		if ex.Type().String() != "error" {
+			continue
+		}
+		c, ok := ex.Tuple.(*ssa.Call)
+		if !ok || c.Referrers() == nil {
+			continue
+		}
+		for _, rr := range *c.Referrers() {
+			if h, isE := rr.(*ssa.Extract); isE && h.Index == 0 {
+				if _, isPtr := h.Type().Underlying().(*types.Pointer); isPtr {
+					if _, known := e.nn[h]; !known {
+						add = append(add, h)
+					}
+				}
+			}
+		}
+	}
+	if len(add) == 0 {
+		return e
+	}
+	nn := make(map[ssa.Value]bool, len(e.nn)+len(add))
+	for k, f := range e.nn {
+		nn[k] = f
+	}
+	out := phiEnv{vals: e.vals, nn: nn, sig: e.sig}
+	for _, h := range add {
+		nn[h] = true
+		out.sig += factHash(h, true)
+	}
+	return out
+}
+
+func isCallTuple(ex *ssa.Extract) bool {
+	_, ok := ex.Tuple.(*ssa.Call)
+	return ok
 }
